@@ -19,6 +19,7 @@ import felupe.tools._newton as _newton_mod
 
 from .kernel import (
     Unexpected,
+    pick,
     Misbehaviour,
     newton_failure,
     HarnessError,
@@ -397,7 +398,7 @@ class Engine:
         # the kind of callable handed over as solve= varies with the scenario: a plain function, a
         # functools.partial with a bound keyword (the parameters after it become keyword-only), or a
         # bound method whose ext0 / solver are keyword-only
-        kind = ("function", "partial", "method")[int(self.doc.get("seed", 0)) % 3]
+        kind = ("function", "partial", "method")[pick(self.doc.get("seed", 0), "solve-kind", 3)]
         if kind == "partial":
             import functools
 
